@@ -113,6 +113,12 @@ int main() {
             ErrorDescriptor ret;
             ret.severity( sev );
             tail( in, "K", sev == SEVERITY_NULL ? 1 : 0, "-", ret );
+        } else if( k == 'P' ) {
+            // ReadTokenSeparator(): what is left of the stream after white space, comments and print control directives
+            std::istringstream in( data );
+            ReadTokenSeparator( in );
+            ErrorDescriptor none;
+            tail( in, "P", 1, "-", none );
         } else if( k == 'T' ) {
             std::istringstream in( data );
             ErrorDescriptor err;
